@@ -21,7 +21,9 @@ func init() {
 			"(N2) a registration is answered exactly once; Exempt/Expired registrations never enter the set, the Scheduled reply precedes the insertion, the already-expired test uses a clock value read after the registration arrived, " +
 			"the set is keyed by the received duty (re-adding is idempotent) and the timer state is recomputed when the new deadline is earlier than the armed one; " +
 			"(N3) an expired duty is removed from the set only on paths on which its report was delivered; (N5) after a removal the timer state is recomputed before the next event; " +
-			"(N4) getCurrDuty selects the minimum deadline, ignores never-expiring duties and returns the duty whose deadline it returns.",
+			"(N4) getCurrDuty selects the minimum deadline, ignores never-expiring duties and returns the duty whose deadline it returns; " +
+			"(N6) a registration stores the received duty under a key computed from that duty, or positionally (append/insert/push/element store) only behind a test of that duty's identity, so registering a pending duty again has no further effect; " +
+			"(N2, cont.) DeadlineExpired is answered only on paths on which the duty's own deadline was decided to lie before the clock value read after the registration arrived.",
 		NotDecided: "'at or after its deadline' and ordering by deadline as statements about clock values; behaviour of the clockwork timer.",
 		Run:        c16,
 		Mutants: []Mutant{
@@ -89,6 +91,51 @@ func init() {
 			{ID: "C16-N4-select-not-earlier", File: "core/deadline.go", Expect: "N4|earliest",
 				Old: "\t\tif currDeadline.After(dutyDeadline) {",
 				New: "\t\tif !currDeadline.After(dutyDeadline) {"},
+			// round 4: the Expired answer depends on the duty's own deadline and the clock only
+			{ID: "C16-N2-expired-by-armed-deadline", File: "core/deadline.go", Expect: "N2|only for a passed deadline",
+				Old: "\t\t\tif deadline.Before(d.clock.Now()) {",
+				New: "\t\t\tif deadline.Before(d.clock.Now()) || deadline.Before(currDeadline) {"},
+			{ID: "C16-N2-expired-when-many-pending", File: "core/deadline.go", Expect: "N2|only for a passed deadline",
+				Old: "\t\t\tif deadline.Before(d.clock.Now()) {",
+				New: "\t\t\tif late := d.clock.Now().After(deadline); late || len(duties) >= 1024 {"},
+			{ID: "C16-N2-expired-older-slot", File: "core/deadline.go", Expect: "N2|only for a passed deadline",
+				Old: "\t\t\tinput.success <- DeadlineScheduled\n",
+				New: "\t\t\tif input.duty.Slot < currDuty.Slot {\n\t\t\t\tinput.success <- DeadlineExpired\n\t\t\t\tcontinue\n\t\t\t}\n\n\t\t\tinput.success <- DeadlineScheduled\n"},
+			{ID: "C16-N2-expired-vs-armed-deadline-only", File: "core/deadline.go", Expect: "N2|only for a passed deadline",
+				Old: "\t\t\tif deadline.Before(d.clock.Now()) {",
+				New: "\t\t\tif deadline.Before(currDeadline) {"},
+			// round 4: N6, the pending collection stops being keyed by the duty and nothing tests membership
+			{ID: "C16-N6-slice-append", File: "core/deadline.go", Expect: "N6|idempotent",
+				Old: "\t\t\tduties[input.duty] = true\n",
+				New: "\t\t\tduties = append(duties, input.duty)\n",
+				More: [][2]string{
+					{"import (\n\t\"context\"\n", "import (\n\t\"context\"\n\t\"slices\"\n"},
+					{"\tduties := make(map[Duty]bool)\n", "\tvar duties []Duty\n"},
+					{"\t\t\tdelete(duties, currDuty)\n", "\t\t\tif i := slices.Index(duties, currDuty); i >= 0 {\n\t\t\t\tduties = slices.Delete(duties, i, i+1)\n\t\t\t}\n"},
+					{"func getCurrDuty(duties map[Duty]bool, ", "func getCurrDuty(duties []Duty, "},
+					{"\tfor duty := range duties {\n", "\tfor _, duty := range duties {\n"},
+				}},
+			{ID: "C16-N6-slice-insert-front", File: "core/deadline.go", Expect: "N6|idempotent",
+				Old: "\t\t\tduties[input.duty] = true\n",
+				New: "\t\t\tduties = slices.Insert(duties, 0, input.duty)\n",
+				More: [][2]string{
+					{"import (\n\t\"context\"\n", "import (\n\t\"context\"\n\t\"slices\"\n"},
+					{"\tduties := make(map[Duty]bool)\n", "\tvar duties []Duty\n"},
+					{"\t\t\tdelete(duties, currDuty)\n", "\t\t\tif i := slices.Index(duties, currDuty); i >= 0 {\n\t\t\t\tduties = slices.Delete(duties, i, i+1)\n\t\t\t}\n"},
+					{"func getCurrDuty(duties map[Duty]bool, ", "func getCurrDuty(duties []Duty, "},
+					{"\tfor duty := range duties {\n", "\tfor _, duty := range duties {\n"},
+				}},
+			{ID: "C16-N6-enqueue-helper-grow-then-store", File: "core/deadline.go", Expect: "N6|idempotent",
+				Old: "\t\t\tduties[input.duty] = true\n",
+				New: "\t\t\tduties = d.enqueue(duties, input.duty)\n",
+				More: append([][2]string{
+					{"import (\n\t\"context\"\n", "import (\n\t\"context\"\n\t\"slices\"\n"},
+					{"\tduties := make(map[Duty]bool)\n", "\tvar duties []Duty\n"},
+					{"\t\t\tdelete(duties, currDuty)\n", "\t\t\tif i := slices.Index(duties, currDuty); i >= 0 {\n\t\t\t\tduties = slices.Delete(duties, i, i+1)\n\t\t\t}\n"},
+					{"func getCurrDuty(duties map[Duty]bool, ", "func getCurrDuty(duties []Duty, "},
+					{"\tfor duty := range duties {\n", "\tfor _, duty := range duties {\n"},
+				}, [2]string{"// C returns the deadline channel.",
+					"func (d *deadliner) enqueue(q []Duty, duty Duty) []Duty {\n\tq = append(q, Duty{})\n\tcopy(q[1:], q)\n\tq[0] = duty\n\n\treturn q\n}\n\n// C returns the deadline channel."})},
 		},
 	})
 }
@@ -299,6 +346,18 @@ func branchDependsOn(p *an.Path, base *an.Sym, from, to int) bool {
 	return false
 }
 
+// c16DeadlineTests lists the positions in (from, to) of the branch decisions of the path that test a value computed
+// from base (same notion as branchDependsOn).
+func c16DeadlineTests(p *an.Path, base *an.Sym, from, to int) []int {
+	var out []int
+	for i := from + 1; i < to && i < len(p.Evs); i++ {
+		if p.Evs[i].Kind == "branch" && branchDependsOn(p, base, i-1, i+1) {
+			out = append(out, i)
+		}
+	}
+	return out
+}
+
 // unresolvedLocalCall reports a call, at or after position from, through a function value the walker could not
 // resolve to code (a function literal kept somewhere it cannot follow): what happens behind it is unknown, so an
 // obligation that needs an effect after `from` is undecided rather than violated.
@@ -382,11 +441,10 @@ func c16(c *rt.Ctx) {
 			}
 		}
 	}
-	if getCurr == nil {
-		for _, id := range []string{"N1", "N2", "N3", "N5", "N4"} {
-			c.Rule(id, 1, func() { c.Bail("function core.getCurrDuty not found") })
+	needGetCurr := func() {
+		if getCurr == nil {
+			c.Bail("function core.getCurrDuty not found")
 		}
-		return
 	}
 	// the code that can only run on the run goroutine: run, its local closures and helpers only called from them
 	actor := an.ConfinedTo(run, pkgFuncs)
@@ -435,7 +493,9 @@ func c16(c *rt.Ctx) {
 			start = l.Header
 		}
 		tr := &an.Tracer{Root: root, Start: start, Stop: start,
-			Inline: func(fn *ssa.Function) bool { return (fn.Pkg == run.Pkg || fn.Parent() != nil) && fn != getCurr }}
+			Inline: func(fn *ssa.Function) bool {
+				return (fn.Pkg == run.Pkg || fn.Parent() != nil) && (fn != getCurr || getCurr == nil)
+			}}
 		res = tr.Run()
 		h1617Dump("C16 event loop", res)
 		if res.Truncated {
@@ -595,6 +655,7 @@ func c16(c *rt.Ctx) {
 	isDeadlineChan := func(s *an.Sym) bool { return s.FieldName() == dlnr+".deadlineChan" }
 
 	c.Rule("N1", 4, func() {
+		needGetCurr()
 		explore()
 		if tmIdx < 0 {
 			c.Bail("run: the event select has no case receiving from the timer's channel")
@@ -680,7 +741,11 @@ func c16(c *rt.Ctx) {
 			if !actor[top] {
 				continue
 			}
-			switch why := an.ClosureStaysLocal(fn); why {
+			why := an.ClosureStaysLocal(fn)
+			if why == "passed as an argument" && c16SyncHigherOrder(fn) {
+				why = "" // handed to a synchronous higher-order function of sort/slices/maps: runs before that call returns
+			}
+			switch why {
 			case "":
 				c.Good(an.FuncName(top)+" closure "+an.FuncName(fn)+" stays local", fn.Pos(), "")
 			case "go":
@@ -732,6 +797,7 @@ func c16(c *rt.Ctx) {
 	})
 
 	c.Rule("N2", 9, func() {
+		needGetCurr()
 		explore()
 		agg := newAgg(c)
 		scheduled, expired, exempt := constOf(c, "core", "DeadlineScheduled"), constOf(c, "core", "DeadlineExpired"), constOf(c, "core", "DeadlineExempt")
@@ -975,6 +1041,62 @@ func c16(c *rt.Ctx) {
 					agg.ok("run refusal reply cannot reach insertion", posOf(r.in))
 				}
 			}
+			// the Expired answer is decided by the registration's own deadline and the clock only: a path on which the
+			// deadline was decided not to lie before the clock value (or was never compared with it) and that still
+			// answers Expired refuses a duty registered before its deadline (it is then never reported)
+			for _, r := range replies {
+				if !r.ok || r.val != expired {
+					continue
+				}
+				what := "run DeadlineExpired answered only for a passed deadline"
+				if df == nil || df.pos > r.pos {
+					agg.unsure(what, posOf(r.in), "cannot identify the deadline of the registered duty on a path answering DeadlineExpired")
+					continue
+				}
+				if t, known := boolFact(p, canExp, r.pos); known && !t {
+					continue // never-expiring duty: judged by the Exempt obligation
+				}
+				switch {
+				case expFact != nil && expFact.pos < r.pos && expFact.truth:
+					agg.ok(what, posOf(r.in))
+				case expFact != nil && expFact.pos < r.pos:
+					agg.bad(what, posOf(r.in), "a registration is answered DeadlineExpired on a path on which its deadline was decided NOT to lie before the clock value: "+
+						"the refusal depends on something else than the duty's own deadline and the time of the registration (e.g. a remembered deadline of another duty), so a duty registered before its deadline is refused and never reported")
+				case branchDependsOn(p, dl, df.pos, r.pos):
+					// every test of the deadline on the way to the answer compares it with the deadline of ANOTHER duty
+					// (the one getCurrDuty selected): positively not a comparison with the clock
+					tests := c16DeadlineTests(p, dl, df.pos, r.pos)
+					foreign := len(tests) > 0
+					for _, at := range tests {
+						other := (*an.Sym)(nil)
+						for _, f := range append(lessFacts(p), equalFacts(p)...) {
+							if f.pos != at {
+								continue
+							}
+							if an.SymEq(f.x, dl) {
+								other = f.y
+							} else if an.SymEq(f.y, dl) {
+								other = f.x
+							}
+						}
+						if other == nil {
+							foreign = false
+							break
+						}
+						if ok, _ := fromGetCurr(other, 1); !ok {
+							foreign = false
+							break
+						}
+					}
+					if foreign {
+						agg.bad(what, posOf(r.in), "a registration is answered DeadlineExpired after comparing its deadline only with the deadline of the duty selected by getCurrDuty (another duty's deadline), never with the clock: a duty registered before its deadline is refused and never reported")
+					} else {
+						agg.unsure(what, posOf(r.in), "the DeadlineExpired answer is guarded by a test of the deadline that is not a recognised `deadline.Before(clock.Now())` comparison")
+					}
+				default:
+					agg.bad(what, posOf(r.in), "a registration is answered DeadlineExpired on a path that never compares its deadline with the clock: a duty registered before its deadline is refused and never reported")
+				}
+			}
 			if iterEnd(p) {
 				agg.check("run registration answered exactly once", posOf(evSel), len(replies) == 1,
 					"a registration is answered "+itoa(len(replies))+" times on a path through the input case (the caller of Add blocks or a second send blocks the run goroutine)")
@@ -1021,6 +1143,7 @@ func c16(c *rt.Ctx) {
 	}
 
 	c.Rule("N3", 1, func() {
+		needGetCurr()
 		explore()
 		agg := newAgg(c)
 		for _, r := range removals(agg, "run delete(duties) only after delivered report") {
@@ -1066,6 +1189,7 @@ func c16(c *rt.Ctx) {
 	})
 
 	c.Rule("N5", 1, func() {
+		needGetCurr()
 		// after an expired duty is removed from the set, the timer state (current duty, deadline, timer) is
 		// recomputed on every path back to the event loop: otherwise the stale, past deadline stays armed and no
 		// later registration can re-arm it (N2 only re-arms for a deadline earlier than the current one)
@@ -1098,7 +1222,19 @@ func c16(c *rt.Ctx) {
 		agg.flush()
 	})
 
+	c.Rule("N6", 1, func() {
+		// registering a pending duty again has no further effect: the received duty is stored under a key computed
+		// from the duty, or positionally only behind a test of the duty's identity (see c16n4_idem.go)
+		explore()
+		agg := newAgg(c)
+		if c16Idempotent(agg, iters, evSel, inIdx, actor) == 0 {
+			c.Bail("no path through the input case stores the registered duty in a collection")
+		}
+		agg.flush()
+	})
+
 	c.Rule("N4", 3, func() {
+		needGetCurr()
 		// getCurrDuty, path by path (up to three iterations of its loop): in every iteration that considers a duty
 		// the candidate's deadline is compared with the current minimum; the current minimum before an iteration is
 		// the operand of that comparison, the minimum after the last one is the result. Each step must follow the
